@@ -28,4 +28,18 @@ theorem rd32_take (b : Bytes) (t o : Nat) (h : o + 4 ≤ t) (ht : t ≤ b.length
   rw [if_pos (by simp [List.length_take]; omega), le32_take b t o h]
 
 
+/-- `Res` is a lawful monad (makes core's `mapM`/`foldlM` lemmas available) -/
+instance : LawfulMonad Res := LawfulMonad.mk'
+  (id_map := fun x => by cases x <;> rfl)
+  (pure_bind := fun x f => rfl)
+  (bind_assoc := fun x f g => by cases x <;> rfl)
+
+theorem mapM_ok_of_forall {α β} (f : α → Res β) (g : α → β) (l : List α) (h : ∀ x ∈ l, f x = .ok (g x)) :
+    l.mapM f = .ok (l.map g) := by
+  induction l with
+  | nil => rfl
+  | cons x xs ih =>
+    rw [List.mapM_cons, h x (by simp), ih (fun y hy => h y (by simp [hy]))]
+    rfl
+
 end Mb2
